@@ -14,6 +14,7 @@ REQUIRED_EVENTS = ["divergence_points", "formula_comparisons", "projector_sample
 RULE = (
     "isotropic models of all classes valid in dim 2/3 x mean velocities {0.3, 1, -2, 0} x mode numbers {64, 1000} x seeds x "
     "{1, dim, dim+1, 7} off-grid evaluation points; histories re-assigning the mean velocity / model on a live generator; every case non-trivial"
+    " Coordinate units 1e-4, 1, 1e4 (len_scale and positions scaled together); mode-number / mean-velocity / model histories."
 )
 ASSUMPTIONS = [
     "white box: the generator's samples (wave vectors, amplitudes) are tapped and the field recomputed with the oracle projector "
